@@ -440,6 +440,11 @@ func (e *Engine) Revert(i int) {
 	}
 	x := e.M.Chain[i]
 	op := e.rec(Op{K: "revert", Name: x.Name, User: x.User})
+	// what the replica's main goroutine does once after start-up (app/replica.go): it fetches s.Replica() and records
+	// the clone status on that object. If a revert replaces the replica object in between, the call lands on the
+	// replaced object - fetched before, executed after the revert (it waits for the lock the revert holds).
+	late := e.R.Chance(30)
+	before := e.Srv.Replica()
 	err := e.Srv.Revert(x.Name, now())
 	e.nMut++
 	e.Res.Count("reverts", 1)
@@ -449,6 +454,22 @@ func (e *Engine) Revert(i int) {
 		return
 	}
 	e.M.Revert(i)
+	if late && before != nil {
+		op.Note = "clone status recorded on the replaced replica object"
+		before.SetCloneStatus("NA")
+		e.Res.Count("reverts_followed_by_a_metadata_write_of_the_replaced_object", 1)
+		// the directory must still be what a restart would need: it opens and reads like the model
+		if got, img, cerr := e.openCopy(); cerr != nil {
+			e.FailAny([]string{"C12", "C06", "C08"}, "revert:directory-unopenable-after-late-metadata-write", fmt.Sprintf("after a revert to %s, a clone-status update that was under way on the replaced replica object rewrote volume.meta: a copy of the directory cannot be opened: %v", x.Name, cerr))
+			return
+		} else if got != e.M.Size {
+			e.FailAny([]string{"C12", "C06"}, "revert:size-differs-after-late-metadata-write", fmt.Sprintf("a copy of the directory opens with size %d, expected %d", got, e.M.Size))
+			return
+		} else if d, n := Diff(img, 0, e.M.Live); d != "" {
+			e.FailAny([]string{"C12", "C06", "C08"}, "revert:directory-differs-after-late-metadata-write", fmt.Sprintf("after a revert to %s and a clone-status update on the replaced replica object, a copy of the directory reads differently from the reverted volume in %d sectors; first: %s", x.Name, n, d))
+			return
+		}
+	}
 	buf, err := e.FullRead()
 	if err != nil {
 		e.Fail("C06", "revert:read-error", err.Error())
